@@ -52,6 +52,10 @@ def gen_case(rng, tier):
     g = gen.Gen(rng, cfg)
     case = gen.case_from(g, g.tree())
     case["repeats"] = rng.choice([1, 1, 2, 3])
+    if rng.random() < 0.15:
+        # the same sub-query builder called twice: two equal but distinct sub-trees (own transfer and
+        # materialization objects with the same names over the same leaves) chained together
+        case["rebuilt_twin"] = True
     if rng.random() < 0.3:
         # a first process() call in which the k-th hook call fails (an I/O error in user code)
         case["fault_at"] = rng.randint(1, 4)
@@ -145,6 +149,25 @@ def run_case(case):
             else:
                 out["violations"].append({"kind": "rejected_valid_program", "detail": f"{exc_str(f.exc)} at {model.show(f.prog)}"})
             return out
+        if case.get("rebuilt_twin"):
+            b2 = Builder(case["leaves"], engines, db)
+            for name in case["leaves"]:
+                k = repr(["leaf", name])
+                if k in b.memo:
+                    b2.memo[k] = b.memo[k]
+            try:
+                twin = b2.build(prog)
+                both = rel.chain(twin)
+            except (BuildFailure, R.RelationalAlgebraError):
+                both = None
+            if both is not None and twin is not rel:
+                try:
+                    want = m.eval(["chain", prog, prog])
+                except model.Skip as s:
+                    out["skip"] = s.reason
+                    return out
+                rel, prog = both, ["chain", prog, prog]
+                c["rebuilt_twin_trees"] = 1
         before = payload_census(rel)
         before_str, before_repr = str(rel), repr(rel)
         needed_mats = materializations_on_the_evaluation_path(rel)
